@@ -728,8 +728,32 @@ func (l *lane) judge(id, op, point string, j int, p *prepared, cl *s3c.Client, a
 				}
 			}
 		}
-		if o := l.ws.Judge(cl.GetObject(b, ke.Key), false); o.Wid != cw.ID {
+		lg := cl.GetObject(b, ke.Key)
+		if o := l.ws.Judge(lg, false); o.Wid != cw.ID {
 			viol("later-put-not-readable", fmt.Sprintf("%s: wrote %d, read %d %s", ke.Key, cw.ID, o.Wid, o.Torn))
+		} else {
+			// the later upload carried an id, a content type and nothing else: whatever else the key shows now was left
+			// behind by the interrupted request (or by the state before it) and has become visible through the API
+			var foreign []string
+			for h := range lg.Header {
+				if strings.HasPrefix(h, "X-Amz-Meta-") && h != "X-Amz-Meta-Wid" {
+					foreign = append(foreign, h+"="+lg.Header.Get(h))
+				}
+			}
+			for _, h := range []string{"Cache-Control", "Content-Disposition", "Content-Encoding", "Content-Language", "Expires", "X-Amz-Object-Lock-Legal-Hold", "X-Amz-Object-Lock-Mode"} {
+				if v := lg.Header.Get(h); v != "" {
+					foreign = append(foreign, h+"="+v)
+				}
+			}
+			if tg := cl.Sub("GET", b, ke.Key, "tagging=", nil); tg.OK() {
+				if tm, _ := s3c.ParseTagging(tg.Body); len(tm) > 0 {
+					foreign = append(foreign, fmt.Sprintf("tags=%v", tm))
+				}
+			}
+			if len(foreign) > 0 {
+				sort.Strings(foreign)
+				viol("later-put-shows-attributes-it-did-not-carry", fmt.Sprintf("%s: the upload after the restart carried X-Amz-Meta-Wid and Content-Type only; the key now also shows %v", ke.Key, foreign))
+			}
 		}
 		if dr := cl.DeleteObject(b, ke.Key); dr.Status != 204 && dr.Status != 200 {
 			viol("later-delete-fails", ke.Key+": "+dr.String())
